@@ -130,10 +130,22 @@ fn decode(src: &mut Source, threads: bool) -> Case {
         .map(|_| match src.below(16) {
             0 => Op::StrBorrowed(src.below(STATIC_STRS.len())),
             1 | 2 => Op::StrOwned { content: src.below(STATIC_STRS.len()), extra_cap: *src.pick(&[0usize, 0, 1, 7, 64]), via_std: src.chance(64) },
-            3 => Op::StrShared(src.below(3)),
+            3 => {
+                if src.chance(110) {
+                    Op::StrShared(100 + src.below(STATIC_STRS.len()))
+                } else {
+                    Op::StrShared(src.below(3))
+                }
+            }
             4 => Op::SliceBorrowed(src.below(3)),
             5 | 6 => Op::SliceOwned { len: src.below(5), extra_cap: *src.pick(&[0usize, 0, 1, 5]) },
-            7 => Op::SliceShared(src.below(2)),
+            7 => {
+                if src.chance(110) {
+                    Op::SliceShared(100 + src.below(5))
+                } else {
+                    Op::SliceShared(src.below(2))
+                }
+            }
             8 | 9 => Op::Clone(src.below(8)),
             10 => Op::Read(src.below(8)),
             11 => Op::Compare(src.below(8), src.below(8)),
@@ -163,6 +175,8 @@ enum Origin {
     Owned,
     SharedStr(usize),
     SharedSlice(usize),
+    /// shared, and the harness kept no reference: the last one is dropped by the library
+    SharedOwnedByCow,
 }
 
 #[derive(Default, Clone, Copy)]
@@ -240,6 +254,17 @@ fn run_ops(case: &Case, world: &World) -> Result<Stats, Fail> {
                 lineage += 1;
                 pool.push((Val::S { cow, model, origin: Origin::Owned }, lineage));
             }
+            Op::StrShared(i) if *i >= 100 => {
+                // a fresh Arc made here and given up at once: the Cow (and its clones) hold the last reference, so
+                // its release — size, count, thread — is the library's doing and shows in the allocation balance
+                let a: Arc<str> = Arc::from(STATIC_STRS[*i - 100]);
+                let model = a.to_string();
+                lineage += 1;
+                let cow = Cow::from_shared(a.clone());
+                drop(a);
+                stats.shapes |= 1 << 4;
+                pool.push((Val::S { cow, model, origin: Origin::SharedOwnedByCow }, lineage));
+            }
             Op::StrShared(i) => {
                 let a = world.arcs_str[*i].clone();
                 let model = a.to_string();
@@ -262,6 +287,15 @@ fn run_ops(case: &Case, world: &World) -> Result<Stats, Fail> {
                 let model = v.iter().map(|e| e.id).collect();
                 lineage += 1;
                 pool.push((Val::L { cow: if *extra_cap == 5 { Cow::from(v) /* From<Vec<T>> */ } else { Cow::from_owned(v) }, model, origin: Origin::Owned }, lineage));
+            }
+            Op::SliceShared(i) if *i >= 100 => {
+                let a: Arc<[El]> = (0..*i - 100).map(|k| El::new(300 + k as u32)).collect::<Vec<El>>().into();
+                let model = a.iter().map(|e| e.id).collect();
+                lineage += 1;
+                let cow: Cow<'static, [El]> = Cow::from(a.clone());
+                drop(a);
+                stats.shapes |= 1 << 4;
+                pool.push((Val::L { cow, model, origin: Origin::SharedOwnedByCow }, lineage));
             }
             Op::SliceShared(i) => {
                 let a = world.arcs_slice[*i].clone();
@@ -416,6 +450,9 @@ fn run_case(case: &Case, ctx: &mut Ctx, track: bool) -> Result<(), Fail> {
     }
     if stats.shapes & 0b0010 != 0 {
         ctx.class("owned-spare-capacity");
+    }
+    if stats.shapes & 0b10000 != 0 {
+        ctx.nontrivial("shared-value-whose-last-reference-is-the-cows");
     }
     if let Some((bytes, blocks)) = balance {
         ensure!(bytes == 0 && blocks == 0, "allocation-balance-nonzero", "after every value was dropped this thread's allocation balance is {} bytes in {} blocks (leak if positive, foreign free if negative)", bytes, blocks);
